@@ -31,6 +31,12 @@ func init() {
 		}
 		return nil, errors.New("neither on nor off")
 	}
+	ref.CustomUnmarshal["Sink"] = func(s string) (interface{}, error) {
+		if s == "bad" {
+			return nil, errors.New("bad")
+		}
+		return decl.Sink{}, nil // a value receiver cannot change the field
+	}
 	ref.CustomAppend["CSV"] = func(cur reflect.Value, s string) (reflect.Value, error) {
 		if s == "bad" {
 			return cur, errors.New("bad")
